@@ -48,7 +48,7 @@ def run(repo, rep, tier):
     # alike (C03 owns the rewrite)
     from . import c03 as _c03
     L.borrow(repo, rep, "R17.3", "C03", _c03._newlines,
-             ("newline-rewrite", "newline-guard"), minimum=2)
+             ("newline-rewrite", "newline-guard", "rewrites"), minimum=1)
     L.state_rule(repo, rep)
 
 
